@@ -28,6 +28,7 @@ def cases(tier):
     if tier == "quick":
         for lk in (["bb"], ["ang3", "bb"], ["circ", "bb"], ["rm", "bb"]):
             yield {"variant": {"links": lk}, "n": 4, "tier": tier}
+    yield {"kind": "fromitp", "tier": tier}
 
 
 def canon_inter(sec, atoms, params, guard):
@@ -140,7 +141,55 @@ def run_one(variant, spec, rg, stats):
     return viols, nontrivial
 
 
+def check_fromitp(case):
+    """multi-residue blocks given as an .itp input file, residue graph from a .json file with from_itp labels"""
+    import itertools
+    from .c01_extra import M_ITP
+    viols, evals, keys = [], 0, []
+    single = case.get("one")
+    for k in (1, 2, 3):
+        for seq in itertools.product("ABM", repeat=k):
+            if "M" not in seq:
+                continue
+            combos = [(1, 1), (4, 1)] + ([(3, 3)] if seq[0] == "M" and seq.count("M") == 1 else [])
+            for start, base in combos:
+                if single and single != [list(seq), start, base]:
+                    continue
+                residues = []
+                for tok in seq:
+                    residues += [("MA", True), ("MB", True)] if tok == "M" else [(tok, False)]
+                n = len(residues)
+                rg = dict(n=n, edges=[[i, i + 1] for i in range(n - 1)], resids=[start + i for i in range(n)],
+                          resnames=[r[0] for r in residues], node_attrs={str(i): {"from_itp": "M"} for i, r in enumerate(residues) if r[1]})
+                itp = M_ITP.replace(" 1 MA ", f" {base} MA ").replace(" 2 MB ", f" {base + 1} MB ") + \
+                    F.render_block_itp("A", F.BLOCKS["A"], dangling={"bonds": [((1, 3), ("1", "0.40", "500"), {})]}) + F.render_block_itp("B", F.BLOCKS["B"])
+                evals += 1
+                case1 = dict(kind="fromitp", tier=case["tier"], one=[list(seq), start, base])
+                with H.tempdir() as d:
+                    r = H.run_gen_params(d, [("in.itp", itp)], graph=H.build_resgraph(rg))
+                    if r["exc"] is not None:
+                        viols.append(crash_violation(r["exc"], case1, assertion="itp-written-for-accepted-input"))
+                        continue
+                    try:
+                        top = H.read_back(d, "out.itp", {a["atype"] for a in r["captured"]["atoms"]})
+                    except Exception as exc:  # noqa
+                        viols.append(crash_violation(exc, case1, assertion="written-itp-readable"))
+                        continue
+                    mm = top.molecules[0]
+                    if digest_for_roundtrip(H.mol_digest(mm.molecule)) != digest_for_roundtrip(r["captured"]):
+                        viols.append(dict(assertion="reread-atoms-equal", tags=["from_itp"], message=f"sequence {seq} start {start} base {base}: file differs from built molecule", case=case1, detail={}))
+                    got = sorted((mm.nodes[x].get("resname"), mm.nodes[x].get("resid")) for x in mm.nodes)
+                    want = sorted((rg["resnames"][i], rg["resids"][i]) for i in range(n))
+                    if got != want:
+                        viols.append(dict(assertion="residue-graph-recovered", tags=["from_itp"],
+                                          message=f"sequence {seq} start {start} block numbering from {base}: residues read back {got} requested {want}", case=case1, detail={}))
+                keys.append(json.dumps([seq, start, base]))
+    return dict(evals=evals, keys=keys, violations=viols[:20], stats={"inputs_fromitp": evals}, sample={"kind": "fromitp", "inputs": evals})
+
+
 def run_case(case):
+    if case.get("kind") == "fromitp":
+        return check_fromitp(case)
     variant = case["variant"]
     spec = gp_cases.make_spec(variant)
     stats = {}
